@@ -7,6 +7,7 @@ import (
 	"encoding/hex"
 	"errors"
 	"fmt"
+	standardaccountmanager "github.com/attestantio/dirk/services/accountmanager/standard"
 	standardwalletmanager "github.com/attestantio/dirk/services/walletmanager/standard"
 	"os"
 	"reflect"
@@ -422,6 +423,23 @@ func (w *world) execCtx(ctx context.Context, f []string) string {
 			r, _ = w.walletMgr.Lock(ctx, creds(unhexStr(f[1]), ""), unhexStr(f[2]))
 		} else {
 			r, _ = w.walletMgr.Unlock(ctx, creds(unhexStr(f[1]), ""), unhexStr(f[2]), []byte("pass"))
+		}
+		return coreStr(r)
+	case "lockacct", "unlockacct":
+		// lockacct <client> <account> | unlockacct <client> <account> <passphrase>: through the account manager service
+		if w.acctMgr == nil {
+			am, err := standardaccountmanager.New(w.ctx, standardaccountmanager.WithUnlocker(w.unlocker), standardaccountmanager.WithChecker(w.checker),
+				standardaccountmanager.WithFetcher(w.fetcher), standardaccountmanager.WithRuler(w.ruler), standardaccountmanager.WithProcess(w.process))
+			if err != nil {
+				return "err:" + err.Error()
+			}
+			w.acctMgr = am
+		}
+		var r core.Result
+		if f[0] == "lockacct" {
+			r, _ = w.acctMgr.Lock(ctx, creds(unhexStr(f[1]), ""), unhexStr(f[2]))
+		} else {
+			r, _ = w.acctMgr.Unlock(ctx, creds(unhexStr(f[1]), ""), unhexStr(f[2]), []byte(hs(f[3])))
 		}
 		return coreStr(r)
 	case "importsvc":
